@@ -81,3 +81,22 @@ Proof.
   intros H loc bi um w. exists (S (edepth e)). destruct (logic_only_value cfg lib url_rel lint_lines e H loc bi um w) as (v & ->).
   cbn. split; discriminate.
 Qed.
+
+(* ---- the premise [never_declines] is a real one: `2 ** -1` is pointless, and the model declines to evaluate it (a negative int
+   power is libm's), in every world, at every fuel: a script made of this statement alone ends OOracle in the model while the
+   edited (empty) script returns null ---- *)
+Lemma pow_neg_declines cfg lib url_rel lint_lines :
+  let e := EBin (U "**") (ENum (NInt 2)) (ENum (NInt (-1))) in
+  pointless e = true /\
+  (forall f loc bi um w, fst (Interp.eval cfg lib url_rel lint_lines f e loc bi um w) = OFuel \/
+                         fst (Interp.eval cfg lib url_rel lint_lines f e loc bi um w) = OOracle) /\
+  ~ never_declines cfg lib url_rel lint_lines e.
+Proof.
+  intros e. assert (P : pointless e = true) by reflexivity.
+  assert (A : forall f loc bi um w, fst (Interp.eval cfg lib url_rel lint_lines f e loc bi um w) = OFuel \/
+                                    fst (Interp.eval cfg lib url_rel lint_lines f e loc bi um w) = OOracle).
+  { intros f loc bi um w. destruct f as [|[|f]]; [left; reflexivity|left; reflexivity|right].
+    rewrite (pointless_eval_stable cfg lib url_rel lint_lines e P (S (S f)) 2 loc bi um w) by (cbn; lia). reflexivity. }
+  split; [exact P|]. split; [exact A|]. intros N. destruct (N None false UHost (world0 [])) as (f & N1 & N2).
+  destruct (A f None false UHost (world0 [])); contradiction.
+Qed.
